@@ -601,6 +601,14 @@ let judge_main file =
            if w <= 40 then List.init (w + 1) (fun k -> Z.add t0 (Z.of_int k)) else [t0; t1] in
          let special = List.mem name ["MULTI"; "EXEC"; "DISCARD"; "WATCH"; "UNWATCH"] in
          let queued = (reply = ["S515545554544"]) in
+         (* representation invariants reported by the implementation's own checker (VerifCheck) *)
+         let bad j = (match j.jraw with _ :: c :: _ -> String.length c >= 3 && String.sub c 0 3 = "BAD" | _ -> false) in
+         (match List.filter (fun j -> bad j && not (List.exists (fun p -> p.jname = j.jname && bad p) !prev_dump)) post with
+          | j :: _ ->
+              incr diffs;
+              Printf.printf "SPECDIFF %s step=%d %s/invariant spec=index-and-dictionary-agree impl=%s\n" !case_id !stepno name
+                (let s = String.concat " " j.jraw in if String.length s > 200 then String.sub s 0 200 else s)
+          | [] -> ());
          if !unknown || special || queued || reply = ["DEAD"] then incr unjudged
          else begin
            let verdicts = List.map (fun now ->
